@@ -5,7 +5,14 @@ package chainsim
 // state right before it.
 
 import (
+	"bytes"
+	"encoding/hex"
 	"fmt"
+	"strings"
+
+	"github.com/pokt-network/pocket-core/app"
+	"github.com/pokt-network/pocket-core/x/auth"
+	authTypes "github.com/pokt-network/pocket-core/x/auth/types"
 
 	pc "github.com/pokt-network/pocket-core/x/pocketcore/types"
 	"sort"
@@ -31,6 +38,7 @@ func (s *Sim) interfere(q Interf, phase string) {
 	height := s.drv.Height + 1
 	before := TakeDump(n, height)
 	globalsBefore := codecGlobals()
+	evidenceBefore := s.localEvidence()
 	subject := q.Kind
 	func() {
 		defer func() {
@@ -138,7 +146,10 @@ func (s *Sim) interfere(q Interf, phase string) {
 			_, _ = n.App.HandleDispatch(hdr)
 		case "checktx", "simulate":
 			var bz []byte
-			if q.Tx != nil {
+			if q.Tx != nil && q.Tx.Kind == "bad_proof" {
+				bz = s.garbageProofTx()
+				subject = q.Kind + "/proof-for-a-pending-claim/none"
+			} else if q.Tx != nil {
 				rec := s.buildTx(q.Tx)
 				bz = rec.Bytes
 				subject = q.Kind + "/" + q.Tx.Kind + "/" + q.Tx.Sig
@@ -150,7 +161,12 @@ func (s *Sim) interfere(q Interf, phase string) {
 				return
 			}
 			if q.Kind == "checktx" {
-				_ = n.App.CheckTx(abci.RequestCheckTx{Tx: bz})
+				typ := abci.CheckTxType_New
+				if q.Path == "recheck" {
+					// what the mempool does with the transactions it still holds after a block
+					typ = abci.CheckTxType_Recheck
+				}
+				_ = n.App.CheckTx(abci.RequestCheckTx{Tx: bz, Type: typ})
 			} else {
 				_ = n.App.Query(abci.RequestQuery{Path: "app/simulate", Data: bz, Height: s.drv.Height})
 			}
@@ -158,6 +174,11 @@ func (s *Sim) interfere(q Interf, phase string) {
 	}()
 	s.res.Fault("offchain_" + q.Kind + "@" + phaseClass(phase))
 	after := TakeDump(n, height)
+	// what the node's servicers hold as evidence of served relays is what their next claims and
+	// proofs are built from: a call that is not a relay must leave it alone
+	if ev := s.localEvidence(); ev != evidenceBefore && q.Kind != "dispatch" {
+		s.violate("C11", "offchain-call-changed-node-evidence", subject, fmt.Sprintf("height %d phase %s: %s changed the relay evidence the node holds from [%s] to [%s]", height, phase, subject, evidenceBefore, ev))
+	}
 	// the protocol-version switches the node executes blocks under live in process globals
 	// (codec.UpgradeHeight, OldUpgradeHeight, UpgradeFeatureMap): they are part of what the next
 	// block builds on, although no store holds them
@@ -168,6 +189,87 @@ func (s *Sim) interfere(q Interf, phase string) {
 		s.violate("C11", "offchain-call-changed-state", subject, fmt.Sprintf("height %d phase %s: %s changed the state the next block builds on: %s (+%d more)", height, phase, subject, ch[0], len(ch)-1))
 	}
 	s.res.Case(fmt.Sprintf("offchain/%s/%s", subject, phaseClass(phase)))
+}
+
+// localEvidence renders, per local servicer and session, how many relay proofs its evidence holds.
+func (s *Sim) localEvidence() string {
+	addrs := make([]string, 0, len(pc.GlobalPocketNodes))
+	for a := range pc.GlobalPocketNodes {
+		addrs = append(addrs, a)
+	}
+	sort.Strings(addrs)
+	var parts []string
+	for _, a := range addrs {
+		pn := pc.GlobalPocketNodes[a]
+		if pn == nil || pn.EvidenceStore == nil {
+			continue
+		}
+		it := pc.EvidenceIterator(pn.EvidenceStore)
+		var evs []string
+		for ; it.Valid(); it.Next() {
+			ev := it.Value()
+			evs = append(evs, fmt.Sprintf("%s/%s/%d=%d", ev.SessionHeader.ApplicationPubKey[:8], ev.SessionHeader.Chain, ev.SessionHeader.SessionBlockHeight, ev.NumOfProofs))
+		}
+		it.Close()
+		sort.Strings(evs)
+		if len(evs) > 0 {
+			parts = append(parts, a[:8]+":"+strings.Join(evs, ","))
+		}
+	}
+	return strings.Join(parts, " ")
+}
+
+// garbageProofTx builds an unsigned proof transaction an outsider can put together for a pending
+// claim of one of this node's servicers: a relay proof leaf of its own making that names the
+// servicer, and a merkle path of the right depth filled with made-up hashes.
+func (s *Sim) garbageProofTx() []byte {
+	v := s.committedView
+	if v == nil {
+		return nil
+	}
+	keys := make([]string, 0, len(v.Claims))
+	for k := range v.Claims {
+		keys = append(keys, k)
+	}
+	sort.Strings(keys)
+	for _, k := range keys {
+		c := v.Claims[k]
+		sk := s.keyIndexOf(c.FromAddress.String())
+		if _, local := pc.GlobalPocketNodes[c.FromAddress.String()]; !local || sk < 0 || c.EvidenceType != pc.RelayEvidence {
+			continue
+		}
+		appAddr := ""
+		if pk, err := hex.DecodeString(c.SessionHeader.ApplicationPubKey); err == nil {
+			appAddr = sdk.Address(addressFromEd25519(pk)).String()
+		}
+		ak := s.keyIndexOf(appAddr)
+		if ak < 0 {
+			continue
+		}
+		s.relayEntropy++
+		leaf := s.makeRelay(ak, c.SessionHeader.Chain, c.SessionHeader.SessionBlockHeight, sk, s.relayEntropy, "").Proof
+		levels := 0
+		for n := int64(1); n < c.TotalProofs; n *= 2 {
+			levels++
+		}
+		if levels < 3 {
+			levels = 3
+		}
+		mp := pc.MerkleProof{TargetIndex: 0, Target: pc.HashRange{Hash: bytes.Repeat([]byte{0x5a}, 32), Range: pc.Range{Lower: 0, Upper: 7}}}
+		for i := 0; i < levels; i++ {
+			mp.HashRanges = append(mp.HashRanges, pc.HashRange{Hash: bytes.Repeat([]byte{byte(i + 1)}, 32), Range: pc.Range{Lower: uint64(8 + i), Upper: uint64(9 + i)}})
+		}
+		m := pc.MsgProof{MerkleProof: mp, Leaf: leaf, EvidenceType: pc.RelayEvidence}
+		fee := sdk.NewCoins(sdk.NewCoin(sdk.DefaultStakeDenom, sdk.NewInt(baseFee)))
+		tx := authTypes.NewTx(&m, fee, authTypes.StdSignature{Signature: make([]byte, 64), PublicKey: KeyFor(s.cfg.KeySeed, sk).PublicKey()}, "", s.relayEntropy)
+		bz, err := auth.DefaultTxEncoder(app.Codec())(tx, -1)
+		if err != nil {
+			continue
+		}
+		s.res.Probe("garbage_proof_for_pending_claim_built")
+		return bz
+	}
+	return nil
 }
 
 // codecGlobals renders the process-global protocol switches deterministically.
